@@ -646,6 +646,275 @@ def gen_par():
            "def sharedStateHits : List String := " + lean_list(sorted(set(hits)))]
     return '\n'.join(out) + '\n'
 
+
+# --------------------------------------------------------------------------
+# Fragment 6: the float helpers of src/geometry.rs, generic in the scalar (C19)
+# --------------------------------------------------------------------------
+
+class FloatEmitter:
+    """Typed translation of the straight-line float helpers to Lean terms over `V3 α`, `Plane α`, `Sphere α`."""
+
+    TYPES = {'DVec3': 'V3', 'f64': 'F', 'DVec4': 'V4', 'bool': 'B', 'Plane': 'Plane', 'Sphere': 'Sphere'}
+    METHODS = {
+        ('V3', 'dot'): ('F', 'V3.dot {0} {1}', ['V3']),
+        ('V3', 'cross'): ('V3', 'V3.cross {0} {1}', ['V3']),
+        ('V3', 'length'): ('F', 'V3.length {0}', []),
+        ('V3', 'length_squared'): ('F', 'V3.norm2 {0}', []),
+        ('V3', 'distance'): ('F', 'V3.distance {0} {1}', ['V3']),
+        ('V3', 'distance_squared'): ('F', 'V3.distance2 {0} {1}', ['V3']),
+        ('V3', 'normalize'): ('V3', 'V3.normalize {0}', []),
+        ('V3', 'project_onto'): ('V3', 'V3.projectOnto {0} {1}', ['V3']),
+        ('F', 'abs'): ('F', 'Scalar.abs {0}', []),
+        ('F', 'sqrt'): ('F', 'Scalar.sqrt {0}', []),
+        ('F', 'signum'): ('F', 'Scalar.signum {0}', []),
+        ('Plane', 'project_onto'): ('V3', 'projectOnto {0} {1}', ['V3']),
+        ('Sphere', 'contains'): ('B', 'contains {0} {1}', ['V3']),
+    }
+    FIELDS = {('Plane', 'n'): 'V3', ('Plane', 'p'): 'V3', ('Sphere', 'center'): 'V3', ('Sphere', 'radius'): 'F',
+              ('V3', 'x'): 'F', ('V3', 'y'): 'F', ('V3', 'z'): 'F', ('V4', 'x'): 'F', ('V4', 'y'): 'F', ('V4', 'z'): 'F', ('V4', 'w'): 'F'}
+    FUNCS = {'intersect_planes': ('V3', 'intersectPlanes', ['Plane', 'Plane', 'Plane'])}
+
+    def __init__(self, self_ty):
+        self.self_ty = self_ty
+
+    def decl_type(self, text):
+        t = text.replace('&', '').replace('mut', '').strip()
+        if t == 'Self':
+            return self.self_ty
+        if t in self.TYPES:
+            return self.TYPES[t]
+        raise Unparsed("parameter type %s" % text)
+
+    def lit(self, text):
+        from fractions import Fraction
+        t = text.replace('_', '')
+        for suf in ('f64', 'f32'):
+            if t.endswith(suf):
+                t = t[:-3]
+        if 'e' in t or 'E' in t:
+            mant, ex = t.lower().split('e')
+            q = Fraction(mant.rstrip('.') or '0') * Fraction(10) ** int(ex)
+        else:
+            q = Fraction(t.rstrip('.') if t.rstrip('.') else '0')
+        if q.denominator == 1:
+            return "(N α %d)" % q.numerator
+        if q == Fraction(1, 2):
+            return "((N α 1) / (N α 2))"
+        # m / 10^e
+        e = 0
+        d = q.denominator
+        while d % 10 == 0:
+            d //= 10
+            e += 1
+        if d != 1:
+            e = 0
+            x = q
+            while x.denominator != 1:
+                x *= 10
+                e += 1
+            return "(Scalar.lit %d %d)" % (x.numerator, e)
+        return "(Scalar.lit %d %d)" % (q.numerator, e)
+
+    def expr(self, e, env):
+        """-> (lean text, type)"""
+        k = e[0]
+        if k == 'num':
+            return self.lit(e[1]), 'F'
+        if k == 'paren':
+            t, ty = self.expr(e[1], env)
+            return t, ty
+        if k == 'path':
+            if len(e[1]) == 1:
+                if e[1][0] not in env:
+                    raise Unparsed("unknown variable %s" % e[1][0])
+                return env[e[1][0]]
+            if e[1] == ['DVec4', 'ONE']:
+                return "(V4.ones : V4 α)", 'V4'
+            raise Unparsed("path %s" % '::'.join(e[1]))
+        if k == 'un':
+            t, ty = self.expr(e[2], env)
+            if e[1] == '-' and ty in ('F', 'V3'):
+                return "(-%s)" % t, ty
+            if e[1] == '!' and ty == 'B':
+                return "(!%s)" % t, 'B'
+            raise Unparsed("unary %s on %s" % (e[1], ty))
+        if k == 'bin':
+            op = e[1]
+            a, ta = self.expr(e[2], env)
+            b, tb = self.expr(e[3], env)
+            if op in '+-':
+                if ta == tb and ta in ('F', 'V3'):
+                    return "(%s %s %s)" % (a, op, b), ta
+                if ta == tb == 'V4' and op == '+':
+                    return "(V4.add %s %s)" % (a, b), 'V4'
+            if op == '*':
+                if ta == tb == 'F':
+                    return "(%s * %s)" % (a, b), 'F'
+                if ta == 'F' and tb == 'V3':
+                    return "(V3.smul %s %s)" % (a, b), 'V3'
+                if ta == 'V3' and tb == 'F':
+                    return "(V3.smul %s %s)" % (b, a), 'V3'
+                if ta == tb == 'V4':
+                    return "(V4.mul %s %s)" % (a, b), 'V4'
+            if op == '/':
+                if ta == tb == 'F':
+                    return "(%s / %s)" % (a, b), 'F'
+                if ta == 'V3' and tb == 'F':
+                    return "(V3.divs %s %s)" % (a, b), 'V3'
+            if op in ('<', '<=', '>', '>=') and ta == tb == 'F':
+                if op == '<':
+                    return "(Scalar.lt %s %s)" % (a, b), 'B'
+                if op == '<=':
+                    return "(Scalar.le %s %s)" % (a, b), 'B'
+                if op == '>':
+                    return "(Scalar.lt %s %s)" % (b, a), 'B'
+                return "(Scalar.le %s %s)" % (b, a), 'B'
+            if op == '&&' and ta == tb == 'B':
+                return "(%s && %s)" % (a, b), 'B'
+            if op == '||' and ta == tb == 'B':
+                return "(%s || %s)" % (a, b), 'B'
+            raise Unparsed("operator %s on %s, %s" % (op, ta, tb))
+        if k == 'field':
+            t, ty = self.expr(e[1], env)
+            if (ty, e[2]) in self.FIELDS:
+                return "%s.%s" % (t, e[2]), self.FIELDS[(ty, e[2])]
+            raise Unparsed("field %s of %s" % (e[2], ty))
+        if k == 'mcall':
+            recv = e[1]
+            # DMatN::from_cols(..).determinant()
+            if e[2] == 'determinant' and recv[0] == 'call' and recv[1][0] == 'path' and recv[1][1] in (['DMat3', 'from_cols'], ['DMat4', 'from_cols']):
+                cols = [self.expr(x, env) for x in recv[2]]
+                want = 'V3' if recv[1][1][0] == 'DMat3' else 'V4'
+                if any(c[1] != want for c in cols) or len(cols) != (3 if want == 'V3' else 4):
+                    raise Unparsed("from_cols arguments")
+                return "(%s %s)" % ('det3cols' if want == 'V3' else 'det4cols', ' '.join(c[0] for c in cols)), 'F'
+            t, ty = self.expr(recv, env)
+            key = (ty, e[2])
+            if key not in self.METHODS:
+                raise Unparsed("method %s on %s" % (e[2], ty))
+            rty, fmt, argtys = self.METHODS[key]
+            args = [self.expr(x, env) for x in e[3]]
+            if [a[1] for a in args] != argtys:
+                raise Unparsed("arguments of %s" % e[2])
+            return "(" + fmt.format(t, *[a[0] for a in args]) + ")", rty
+        if k == 'call':
+            f = e[1]
+            if f[0] != 'path':
+                raise Unparsed("call target")
+            args = [self.expr(x, env) for x in e[2]]
+            if f[1] in (['Plane', 'new'],) or (f[1] == ['Self', 'new'] and self.self_ty == 'Plane'):
+                if [a[1] for a in args] != ['V3', 'V3']:
+                    raise Unparsed("Plane::new arguments")
+                return "(Plane.mk %s %s)" % (args[0][0], args[1][0]), 'Plane'
+            if f[1] in (['Sphere', 'new'],) or (f[1] == ['Self', 'new'] and self.self_ty == 'Sphere'):
+                if [a[1] for a in args] != ['V3', 'F']:
+                    raise Unparsed("Sphere::new arguments")
+                return "(Sphere.mk %s %s)" % (args[0][0], args[1][0]), 'Sphere'
+            if len(f[1]) == 1 and f[1][0] in self.FUNCS:
+                rty, name, argtys = self.FUNCS[f[1][0]]
+                if [a[1] for a in args] != argtys:
+                    raise Unparsed("arguments of %s" % f[1][0])
+                return "(%s %s)" % (name, ' '.join(a[0] for a in args)), rty
+            raise Unparsed("call %s" % '::'.join(f[1]))
+        if k == 'struct':
+            fields = dict(e[2])
+            if e[1] == ['DVec4'] and set(fields) == set('xyzw'):
+                parts = [self.expr(fields[c], env) for c in 'xyzw']
+                if any(p[1] != 'F' for p in parts):
+                    raise Unparsed("DVec4 literal")
+                return "(V4.mk %s)" % ' '.join(p[0] for p in parts), 'V4'
+            if e[1] == ['DVec3'] and set(fields) == set('xyz'):
+                parts = [self.expr(fields[c], env) for c in 'xyz']
+                if any(p[1] != 'F' for p in parts):
+                    raise Unparsed("DVec3 literal")
+                return "(V3.mk %s)" % ' '.join(p[0] for p in parts), 'V3'
+            raise Unparsed("struct literal %s" % '::'.join(e[1]))
+        raise Unparsed("expression kind %s" % k)
+
+    def function(self, lean_name, params, body, mut_self=False):
+        """-> Lean definition text"""
+        env = {}
+        binders = []
+        for (nm, ty) in params_of(params):
+            if nm == 'self':
+                env['self'] = ('self_', self.self_ty)
+                binders.append("(self_ : %s α)" % self.self_ty)
+            else:
+                t = self.decl_type(ty)
+                env[nm] = (nm, t)
+                binders.append("(%s : %s)" % (nm, {'F': 'α', 'V3': 'V3 α', 'V4': 'V4 α', 'Plane': 'Plane α', 'Sphere': 'Sphere α', 'B': 'Bool'}[t]))
+        blk = parse_body(body)
+        lines = []
+        guards = []
+
+        def stmts(ss, env, indent):
+            for s in ss:
+                if s[0] == 'let':
+                    _, mut, pat, ty, init = s
+                    if pat[0] != 'pvar' or init is None:
+                        raise Unparsed("let form")
+                    t, tt = self.expr(init, env)
+                    lines.append("%slet %s := %s" % (indent, pat[1], t))
+                    env[pat[1]] = (pat[1], tt)
+                elif s[0] == 'expr' and s[1][0] == 'macro' and s[1][1] in ('assert', 'debug_assert'):
+                    guards.append(' '.join(x[1] for x in s[1][2])[:80])
+                elif s[0] == 'assign' and s[1] == '=' and s[2][0] == 'field' and s[2][1] == ('path', ['self']) and mut_self:
+                    t, tt = self.expr(s[3], env)
+                    if self.FIELDS.get((self.self_ty, s[2][2])) != tt:
+                        raise Unparsed("assignment to self.%s" % s[2][2])
+                    lines.append("%sself_ := { self_ with %s := %s }" % (indent, s[2][2], t))
+                elif s[0] == 'expr' and s[1][0] == 'if' and s[1][3] is None and mut_self:
+                    c, ct = self.expr(s[1][1], env)
+                    if ct != 'B':
+                        raise Unparsed("if condition")
+                    lines.append("%sif %s then" % (indent, c))
+                    inner = s[1][2]
+                    if inner[2] is not None:
+                        raise Unparsed("if block with a value")
+                    stmts(inner[1], dict(env), indent + "  ")
+                else:
+                    raise Unparsed("statement %s" % s[0])
+        retty = None
+        if mut_self:
+            lines.append("  let mut self_ := self_")
+        stmts(blk[1], env, "  ")
+        if blk[2] is None:
+            raise Unparsed("function without a value")
+        t, retty = self.expr(blk[2], env)
+        lty = {'F': 'α', 'V3': 'V3 α', 'V4': 'V4 α', 'Plane': 'Plane α', 'Sphere': 'Sphere α', 'B': 'Bool'}[retty]
+        if mut_self:
+            head = "def %s %s : %s := Id.run do" % (lean_name, ' '.join(binders), lty)
+            return head + "\n" + '\n'.join(lines) + "\n  return %s\n" % t, guards
+        head = "def %s %s : %s :=" % (lean_name, ' '.join(binders), lty)
+        return head + "\n" + '\n'.join(lines) + ("\n" if lines else "") + "  %s\n" % t, guards
+
+
+def gen_geom():
+    src = strip_attrs_cfg(read('src/geometry.rs'))
+    toks = tokenize(src)
+    ps, pe = find_impl(toks, ['Plane'])
+    ss, se = find_impl(toks, ['Sphere'])
+    out = ["variable {α : Type} [Add α] [Sub α] [Mul α] [Div α] [Neg α] [NatCast α] [Scalar α]", ""]
+    table = [
+        ('projectOnto', 'Plane', toks[ps:pe], 'project_onto', False),
+        ('intersectPlanes', None, toks, 'intersect_planes', False),
+        ('projectOntoIntersection', 'Plane', toks[ps:pe], 'project_onto_intersection', False),
+        ('signedVolumeTet', None, toks, 'signed_volume_tet', False),
+        ('signedAreaTri', None, toks, 'signed_area_tri', False),
+        ('sphere2', 'Sphere', toks[ss:se], 'from_two_points', False),
+        ('sphere3', 'Sphere', toks[ss:se], 'from_three_points', False),
+        ('sphere4', 'Sphere', toks[ss:se], 'from_four_points', False),
+        ('contains', 'Sphere', toks[ss:se], 'contains', False),
+        ('extend', 'Sphere', toks[ss:se], 'extend', True),
+    ]
+    for lean_name, self_ty, tk, rust_name, mut_self in table:
+        params, body, _ = find_fn(tk, rust_name)
+        fe = FloatEmitter(self_ty or 'Plane')
+        text, guards = fe.function(lean_name, params, body, mut_self)
+        out.append("/-- `%s`%s -/" % (rust_name, (' (guarded by: ' + '; '.join(guards).replace('-/', '- /') + ')') if guards else ''))
+        out.append(text)
+    return '\n'.join(out)
+
 # --------------------------------------------------------------------------
 FRAGMENTS = [
     # (module name, source files, generator, imports)
@@ -654,6 +923,7 @@ FRAGMENTS = [
     ('Grid', ['src/voronoi/boundary.rs'], gen_grid, []),
     ('Space', ['src/space.rs'], gen_space, []),
     ('Par', ['src/voronoi.rs'], gen_par, []),
+    ('Geom', ['src/geometry.rs'], gen_geom, ['MVoro.Model.Geom']),
 ]
 
 
@@ -661,6 +931,7 @@ FRAGMENTS = [
 STUBS = {
     'InSphere': "def inSphereDet (a b c d v : I3 Int) : Int := 0\n" + ''.join("def signExtract_%s (determinant : Int) : Int := 0\n" % b for b in BACKENDS),
     'Face': "def clipNormalSign : Int := 0\ndef storedNormalSign : Int := 0\n",
+    'Geom': "",
     'Par': "def parLoops : List (List String) := []\ndef seqLoops : List (List String) := []\ndef sharedStateHits : List String := []\n",
     'Space': "def cellLocAxes : List Nat := []\n",
     'Grid': "def gridPad : Rat := 0\ndef gridSpan : Rat := 1\ndef mantissaMask : Nat := 0\n",
